@@ -135,7 +135,7 @@ def route(rep, lib, rid="C06-ROUTE"):
     return r
 
 
-def recover(rep, lib, rid="C16-RECOVER"):
+def recover(rep, lib, rid="C16-RECOVER", require_recoverable=False):
     r = rep.rule(rid, "an unrecoverable (I/O) parse error returns before the policy is consulted: can_recover() is "
                  "false for every JsonParserError variant that carries an io::Error, and in read_input the failing "
                  "edge of can_recover reaches only `return Err` with no write and no loop continuation, under every "
@@ -164,6 +164,10 @@ def recover(rep, lib, rid="C16-RECOVER"):
         else:
             if vals == {("b", True)}:
                 r.ok(key, "recoverable", cr.where(), nontrivial=False)
+            elif vals == {("b", False)} and require_recoverable:
+                r.bad(key, "a malformed-input error without an io::Error (%s) is treated as fatal: under --on-error "
+                      "ignore / stdout / stderr such input must be skipped or reported, not end the run" % v["name"],
+                      cr.where())
             elif vals == {("b", False)}:
                 r.ok(key, "treated as fatal (stricter than required)", cr.where(), nontrivial=False)
             else:
